@@ -4,6 +4,7 @@ go 1.26.0
 
 require (
 	github.com/anishathalye/porcupine v1.3.0
+	go.etcd.io/bbolt v1.5.0
 	go.etcd.io/gofail v0.2.0
 	go.sia.tech/core v0.21.7
 	go.sia.tech/coreutils v0.23.5
